@@ -36,6 +36,20 @@ OBS = ["dir", "getattr", "row", "setitem", "getitem", "repr"]
 # generation
 # --------------------------------------------------------------------------------------------
 
+def _rename_view(c, new, how):
+    """rename a live column view through any of the public routes: the `name` setter, `alias()` (only allowed on an
+    unnamed vector) or the deprecated `rename()`"""
+    import warnings
+    if how == "alias" and c.name is None and new is not None:
+        c.alias(new)
+    elif how == "rename":
+        with warnings.catch_warnings():
+            warnings.simplefilter("ignore")
+            c.rename(new)
+    else:
+        c.name = new
+
+
 def _public_attribute_names():
     import serif
     from serif.table import Row
@@ -59,9 +73,9 @@ def _rand_ops(rng, width, pool):
     for _ in range(rng.randint(1, 6)):
         k = rng.random()
         if k < 0.18:
-            ops.append(["view", rng.randrange(16), rng.choice(pool)])
+            ops.append(["view", rng.randrange(16), rng.choice(pool), rng.choice(["name", "name", "alias", "rename"])])
         elif k < 0.34:
-            ops.append(["viewattr", rng.randrange(16), rng.choice(pool)])
+            ops.append(["viewattr", rng.randrange(16), rng.choice(pool), rng.choice(["name", "name", "alias", "rename"])])
         elif k < 0.50:
             ops.append(["rename", rng.choice(pool), rng.choice(pool)])
         elif k < 0.60:
@@ -241,7 +255,7 @@ class _Run:
                 wops.append(["view", i, self.intern.wire(op[2])])
                 self.log.append(f"c = t.cols()[{i}]; c.name = {op[2]!r}")
                 try:
-                    c = t.cols()[i]; c.name = op[2]; iops.append("ok")
+                    c = t.cols()[i]; _rename_view(c, op[2], op[3] if len(op) > 3 else "name"); iops.append("ok")
                     del c
                 except Exception as e:
                     iops.append(_err(e))
@@ -254,7 +268,7 @@ class _Run:
                     c = getattr(t, a)
                     j = _col_index(t, c)
                     if j >= 0:
-                        c.name = op[2]
+                        _rename_view(c, op[2], op[3] if len(op) > 3 else "name")
                     iops.append(j)
                     del c
                 except Exception as e:
@@ -446,7 +460,9 @@ def shrink(spec):
             yield dict(spec, names=names[:i] + [n[:-1]] + names[i + 1:])
             yield dict(spec, names=names[:i] + [n[1:]] + names[i + 1:])
     for i, op in enumerate(ops):
-        if op[0] in ("view", "viewattr", "rename", "append", "appenddict") and op[-1] not in ("a", "b", "zz"):
+        if op[0] in ("view", "viewattr") and len(op) > 3 and op[2] not in ("a", "b", "zz"):
+            yield dict(spec, ops=ops[:i] + [op[:2] + ["zz"] + op[3:]] + ops[i + 1:])
+        if op[0] in ("rename", "append", "appenddict") and op[-1] not in ("a", "b", "zz"):
             yield dict(spec, ops=ops[:i] + [op[:-1] + ["zz"]] + ops[i + 1:])
     if len(spec["obs"]) > 1:
         for i in range(len(spec["obs"])):
